@@ -30,6 +30,7 @@ def dispatch (line : String) : String :=
     | "sq" => cmdSq args
     | "enc" => cmdEnc args
     | "dec" => cmdDec args
+    | "build" => cmdBuild args
     | "comp" => cmdComp args
     | "cdec" => cmdCdec args
     | "menc" => cmdMenc args
